@@ -20,6 +20,8 @@ def observe(cfg, origin=0, variant=0):
     n = len(y)
     idx = pd.RangeIndex(origin, origin + n) if variant % 2 == 0 else pd.Index(np.arange(origin, origin + n))
     ys = pd.Series(y, index=idx)
+    if variant % 4 == 3 and MISS not in cfg["y"]:
+        ys = ys.astype("int64")         # count data: the forecasts are the same real numbers
     try:
         if cfg["kind"] == "naive":
             f = NaiveForecaster(strategy=cfg["strategy"], sp=cfg["sp"], window_length=cfg["w"] or None)
